@@ -21,8 +21,10 @@ import (
 //   [.., ..+nExits)         exit shapes: tail-position constructs exercised along each of their internal
 //                           exits, the exit taken being chosen by the turn number (appended so that the
 //                           indices - hence the generated programs - of the earlier blocks stay what they were)
-//   the rest (nEsc)         escape shapes (c02_escape.go): every turn creates closures over its own
-//                           parameters / locals, they escape the turn and are called later (appended last)
+//   [.., ..+nEsc)           escape shapes (c02_escape.go): every turn creates closures over its own
+//                           parameters / locals, they escape the turn and are called later (appended)
+//   the rest (nDepth)       depth-history cases (c02_depth.go): the stack goes deeper than it has ever
+//                           been in the runtime while loop frames are live (appended last)
 
 func init() {
 	fw.Register(&fw.Prop{
@@ -40,12 +42,13 @@ func init() {
 		Cases:       func(tier string) int { return c02Layout(tier).total },
 		Run:         c02Run,
 		Init:        c02Init,
+		Driver:      c02Driver,
 		Exhaustive:  func(tier string) bool { return false },
 		MinDistinct: func(tier string) int { return pick(tier, 600, 1500) },
 	})
 }
 
-type c02Lay struct{ nShapes, nBlocked, nTwin, nExits, nEsc, total int }
+type c02Lay struct{ nShapes, nBlocked, nTwin, nExits, nEsc, nDepth, total int }
 
 func c02Layout(tier string) c02Lay {
 	l := c02Lay{}
@@ -56,7 +59,8 @@ func c02Layout(tier string) c02Lay {
 	l.nTwin = pick(tier, 3000, 200000)
 	l.nExits = c02ExitExhaustive() + pick(tier, 250, 5000)
 	l.nEsc = c02EscExhaustive() + pick(tier, 200, 5000)
-	l.total = l.nShapes + l.nBlocked + l.nTwin + l.nExits + l.nEsc
+	l.nDepth = c02DepthExhaustive() + pick(tier, 205, 6000)
+	l.total = l.nShapes + l.nBlocked + l.nTwin + l.nExits + l.nEsc + l.nDepth
 	return l
 }
 
@@ -148,8 +152,8 @@ type c02Shape struct {
 	cycle   int    // 1 self, 2, 3
 	definer string // defun labels set-lambda
 	iters   []int
-	side    bool // the body also makes a NON-final call for effect to a function of the cycle
-	exits   bool // an exit shape: the path through the chain depends on the turn number
+	side    bool    // the body also makes a NON-final call for effect to a function of the cycle
+	exits   bool    // an exit shape: the path through the chain depends on the turn number
 	esc     *c02Esc // an escape shape: what the turns create and how it outlives them (c02_escape.go)
 }
 
@@ -424,6 +428,13 @@ type c02Mon struct {
 	badElide     string
 	maxHeight    int
 	pushes, pops int64
+	// depth-history block: where the frame array of the call stack moved (observed, never
+	// judged): the capacity seen by the push hook changed
+	watch       bool
+	live        func() bool // has the loop under observation been entered
+	lastCap     int
+	moveHeights []int
+	movesLive   int64
 }
 
 var c02Cur *c02Mon
@@ -451,6 +462,19 @@ func c02Init(w *fw.W) {
 				m.pushes++
 				if h > m.maxHeight {
 					m.maxHeight = h
+				}
+				if m.watch {
+					if c := cap(s.Frames); c != m.lastCap {
+						if m.lastCap != 0 {
+							if len(m.moveHeights) < 32 {
+								m.moveHeights = append(m.moveHeights, h)
+							}
+							if m.live != nil && m.live() {
+								m.movesLive++
+							}
+						}
+						m.lastCap = c
+					}
 				}
 			}
 		},
@@ -518,8 +542,10 @@ func c02Run(w *fw.W, idx int) {
 		c02RunTwin(w, idx)
 	case idx < l.nShapes+l.nBlocked+l.nTwin+l.nExits:
 		c02RunShapeS(w, c02ExitShapeFor(w, idx, idx-(l.nShapes+l.nBlocked+l.nTwin), w.Tier))
-	default:
+	case idx < l.nShapes+l.nBlocked+l.nTwin+l.nExits+l.nEsc:
 		c02RunShapeS(w, c02EscShapeFor(w, idx, idx-(l.nShapes+l.nBlocked+l.nTwin+l.nExits), w.Tier))
+	default:
+		c02RunDepth(w, c02DepthCaseFor(w, idx, idx-(l.nShapes+l.nBlocked+l.nTwin+l.nExits+l.nEsc), w.Tier))
 	}
 }
 
